@@ -208,35 +208,47 @@ fn main() {
             let tag_b = if o_base.starts_with("ok") { "base-ok" } else { "base-err" };
             let ib = sink.case(tag_b, &world.req(&base, k), &o_base);
             let tag_e = match kind { 0 => "ext-repeated", 1 => "ext-invalid", 2 => "ext-mixed", _ => "ext-more-honest" };
-            let ie = if with_unreg {
-                // the model has no registration table: an unregistered slot is an error of the wrapper, compared by S only
-                sink.case("ext-unregistered-slot", "c02.select k=1 sigs=[]", "err 0")
-            } else {
-                sink.case(tag_e, &world.req(&ext, k), &o_ext)
-            };
+            // an unregistered slot is, for the model, one more invalid signature
+            let ie = sink.case(if with_unreg { "ext-unregistered-slot" } else { tag_e }, &world.req(&ext, k), &o_ext);
             // S: completeness on the base list
             let mut params_k = f.params;
             params_k.k = k;
             for (list, o, agg, i) in [(&base, &o_base, &agg_base, ib), (&ext, &o_ext, &agg_ext, ie)] {
                 let cover = world.valid_idx(list).len() as u64;
-                let class = if world.out_of_range(list) { "unregistered-slot" } else if world.repeats(list) { "duplicate-key-index" } else { "incomplete" };
+                // (both former known classes are repaired: no S failure is excused any more)
+                let class = if world.out_of_range(list) { "incomplete-unregistered-slot" } else if world.repeats(list) { "incomplete-repeated" } else { "incomplete" };
                 if cover >= k && !o.starts_with("ok") {
                     sink.sfail(i, class, &format!("{} distinct valid indices cover k={} but aggregation failed: {}", cover, k, o), &world.req(list, k));
                 }
                 if let Some(a) = agg {
                     if a.verify(&msg, &f.avk, &params_k, None, None).is_err() {
-                        let class2 = if world.repeats(list) { "duplicate-key-index" } else { "result-does-not-verify" };
+                        let class2 = "result-does-not-verify";
                         sink.sfail(i, class2, "aggregation succeeded but its result does not verify", &world.req(list, k));
+                    }
+                }
+            }
+            // S: the order of what is handed over never changes WHETHER aggregation succeeds
+            if li % 3 == 0 {
+                let mut perm = ext.clone();
+                rng.shuffle(&mut perm);
+                let (o_perm, agg_perm) = outcome(&f, &perm, k, &msg);
+                let ip = sink.case("ext-permuted", &world.req(&perm, k), &o_perm);
+                if o_perm.starts_with("ok") != o_ext.starts_with("ok") {
+                    sink.sfail(ip, "order-dependent", &format!("the same multiset in another order: {} vs {}", o_ext, o_perm), &world.req(&perm, k));
+                }
+                if let Some(a) = agg_perm {
+                    if a.verify(&msg, &f.avk, &params_k, None, None).is_err() {
+                        sink.sfail(ip, "result-does-not-verify", "aggregation succeeded but its result does not verify", &world.req(&perm, k));
                     }
                 }
             }
             // S: monotonicity
             if o_base.starts_with("ok") && !o_ext.starts_with("ok") {
-                let class = if world.out_of_range(&ext) { "unregistered-slot" } else if world.repeats(&ext) { "duplicate-key-index" } else { "non-monotone" };
+                let class = if world.out_of_range(&ext) { "non-monotone-unregistered-slot" } else if world.repeats(&ext) { "non-monotone-repeated" } else { "non-monotone" };
                 sink.sfail(ie, class, &format!("success turned into failure by extra material: {} -> {}", o_base, o_ext), &world.req(&ext, k));
             }
         }
-        // witness of the known finding on this world: sigs ++ sigs
+        // witness of the (repaired) findings on this world: sigs ++ sigs, sigs ++ [unregistered slot]
         if w == 0 {
             let base: Vec<Item> = pool.clone();
             let mut dup = base.clone();
